@@ -829,7 +829,7 @@ impl<'a> Parser<'a> {
             Token::Keyword(Keyword::In) => Ok(2),
             Token::Keyword(Keyword::NotIn) => Ok(2),
             Token::Keyword(Keyword::And) => Ok(1),
-            Token::Keyword(Keyword::Or) => Ok(1),
+            Token::Keyword(Keyword::Or) => Ok(0),
             Token::LeftSquareParentheses => Ok(1),
             _ => Ok(-1)
         }
